@@ -3387,6 +3387,14 @@ func (m *Machine) Export() (*Serialized, Schema, error) {
 // into a machine which has already produces transitions and/or
 // has telemetry connected (use [Machine.SetSchema] instead).
 func (m *Machine) Import(data *Serialized) error {
+	// trigger MachineRestored (if defined) once the locks are released
+	restored := false
+	defer func() {
+		if restored {
+			m.Add1(StateMachineRestored, nil)
+		}
+	}()
+
 	m.activeStatesMx.Lock()
 	defer m.activeStatesMx.Unlock()
 	m.queueMx.RLock()
@@ -3425,10 +3433,7 @@ func (m *Machine) Import(data *Serialized) error {
 	m.statesVerified.Store(true)
 	m.machineTick = data.MachineTick + 1
 
-	// trigger MachineRestored, if defined
-	if m.Has1(StateMachineRestored) {
-		m.Add1(StateMachineRestored, nil)
-	}
+	restored = m.Has1(StateMachineRestored)
 	m.log(LogChanges, "[import] imported %d times, now at %d ticks",
 		m.machineTick, sum)
 
